@@ -64,6 +64,23 @@ func FamilyShapeSkip(thorough bool) []*Conv {
 		add(shape{Src: pos.src, Tgt: pos.tgt, Name: "skipaddr_" + pos.name,
 			Decls: []string{"type PFXSa struct {\n\tN int\n\tL []int\n}\ntype PFXSaIn struct {\n\tF []int\n\tA [2]int\n\tS PFXSa\n\tN int\n}\ntype PFXSaOut struct {\n\tF *[]int\n\tA *[2]int\n\tS *PFXSa\n\tN *int\n}"}})
 	}
+	// ... in update methods as well: the target never points into the source (by-value and pointer source)
+	for _, srcPtr := range []bool{false, true} {
+		src := "PFXSaIn"
+		if srcPtr {
+			src = "*PFXSaIn"
+		}
+		out = append(out, &Conv{
+			ID: fmt.Sprintf("shapeskip/skipaddr_update_ptr%v", srcPtr), Family: "shapeskip", Format: formats[fi%3],
+			Params: "source " + src + ", target *PFXSaOut", Results: "",
+			Decls:       "type PFXSa struct {\n\tN int\n\tL []int\n}\ntype PFXSaIn struct {\n\tF []int\n\tS PFXSa\n\tN int\n\tU struct{ L []int }\n}\ntype PFXSaOut struct {\n\tF *[]int\n\tS *PFXSa\n\tN *int\n\tU *struct{ L []int }\n}\n",
+			Bounds:      &Bounds{MaxSlice: 1, MaxMap: 1, RecDepth: 1},
+			ConvLines:   []string{"skipCopySameType"},
+			MethodLines: []string{"update target"},
+			Spec:        &Spec{SkipCopy: true, Update: &UpdateSpec{}},
+		})
+		fi++
+	}
 	// the same named type (identical on both sides) at several positions of one method
 	add(shape{Src: "PFXTwS", Tgt: "PFXTwT", Name: "same_named_twice",
 		Decls: []string{"type PFXStamp struct{ Sec int64 }\ntype PFXTwS struct {\n\tCreated PFXStamp\n\tUpdated PFXStamp\n\tAll []PFXStamp\n\tN PFXTwA\n}\ntype PFXTwT struct {\n\tCreated PFXStamp\n\tUpdated PFXStamp\n\tAll []PFXStamp\n\tN PFXTwB\n}\ntype PFXTwA int\ntype PFXTwB int"}})
@@ -504,6 +521,38 @@ func FamilyUpdate(thorough bool) []*Conv {
 			}
 		}
 	}
+	// ... without any field setting on the method: the zero-value settings inherited from the converter or the
+	// command line, and the per-category lines of the method, still guard every field
+	for vi, v := range []struct {
+		name            string
+		conv, cli, meth []string
+		u               UpdateSpec
+	}{
+		{"conv_all", []string{"update:ignoreZeroValueField"}, nil, nil, UpdateSpec{SkipBasic: true, SkipStruct: true, SkipNillable: true}},
+		{"cli_all", nil, []string{"update:ignoreZeroValueField"}, nil, UpdateSpec{SkipBasic: true, SkipStruct: true, SkipNillable: true}},
+		{"method_basic", nil, nil, []string{"update:ignoreZeroValueField:basic"}, UpdateSpec{SkipBasic: true}},
+		{"method_nillable", nil, nil, []string{"update:ignoreZeroValueField:nillable"}, UpdateSpec{SkipNillable: true}},
+		{"none", nil, nil, nil, UpdateSpec{}},
+	} {
+		for _, srcPtr := range []bool{false, true} {
+			n++
+			u := v.u
+			src := "PFXSame"
+			if srcPtr {
+				src = "*PFXSame"
+			}
+			out = append(out, &Conv{
+				ID:        fmt.Sprintf("update/sametype_nosettings/%s_ptr%v", v.name, srcPtr),
+				Family:    "update",
+				Format:    []string{"struct", "function", "variable"}[(n+vi)%3],
+				Params:    "source " + src + ", target *PFXSame",
+				Results:   "",
+				Decls:     "type PFXSame struct {\n\tID int\n\tName string\n\tL []int\n\tP *int\n}\n",
+				ConvLines: append([]string{"skipCopySameType"}, v.conv...), CLI: v.cli, MethodLines: append([]string{"update target"}, v.meth...),
+				Spec: &Spec{SkipCopy: true, Update: &u},
+			})
+		}
+	}
 	// an extend function with the same (source, *target) pair as the update method does not replace the update
 	for _, f := range []string{"struct", "function", "variable"} {
 		for _, withErr := range []bool{false, true} {
@@ -726,6 +775,28 @@ func FamilyDefault(thorough bool) []*Conv {
 				}
 			}
 		}
+	}
+	// identical struct types behind the pointers under skipCopySameType, with field settings on the method: the method
+	// converts field by field on top of FUNC's result (ignored fields keep FUNC's values), nothing is taken over whole
+	for i, upd := range []bool{false, true} {
+		n++
+		u := &UpdateSpec{DefaultFn: "PFXNew", DefaultUpdate: upd}
+		lines := []string{"default PFXNew", "ignore Keep"}
+		if upd {
+			lines = append(lines, "default:update")
+		}
+		out = append(out, &Conv{
+			ID:          fmt.Sprintf("default/skipcopy_identical_types_settings_upd%v", upd),
+			Family:      "default",
+			Format:      []string{"struct", "function", "variable"}[(n+i)%3],
+			Params:      "source *PFXSame",
+			Results:     "*PFXSame",
+			Decls:       "type PFXSame struct {\n\tName string\n\tAge int\n\tKeep string\n}\nfunc PFXNew() *PFXSame { return &PFXSame{} }\n",
+			ConvLines:   []string{"skipCopySameType"},
+			MethodLines: lines,
+			Spec:        &Spec{SkipCopy: true, Update: u, Pairs: map[string]*PairSpec{"PFXSame→PFXSame": {Fields: map[string]*FieldSpec{"Keep": {Ignore: true}}}}},
+			Bounds:      &Bounds{MaxSlice: 1, MaxMap: 1, RecDepth: 1},
+		})
 	}
 	// default (with and without default:update) on pointer methods of which one struct is an unnamed type: the
 	// method still converts its pair itself, on top of FUNC's result
